@@ -53,11 +53,30 @@ def run(ctx):
         sess = laws.make_session(rng, 2, 10, rng.choice([6, 12]), neg=(i % 2 == 1), with_empty=True)
         n = max(len(d) for d in sess)
         specs.append(dict(session=sess, fn="heat", emb=EXACT_EMBS[0], sigma_t=sigma_t, anchor=0, aux=["W", "SF"], zerotol=Fraction(n, 10 ** 6) / Fraction(math.sqrt(8 * math.pi * sigma_t))))
+    # diagrams of more than a hundred pairs (real diagrams have hundreds; sizes that are not multiples of a power of two)
+    for i in range(2 if quick else 8):
+        sigma_t = [0.4, 5.0][i % 2]
+        sess = laws.make_session(rng, 130, 165, 30, neg=False, with_empty=True, nbase=2)
+        sess = [sess[q] for q in (0, 1, 2, 3, 11)] + ([[]] if i % 2 == 0 else [])      # X, Y, X reordered, X + diagonal points, X perturbed, (empty)
+        n = max(len(d) for d in sess)
+        specs.append(dict(session=sess, fn="heat", emb=[EXACT_EMBS[0], EXACT_EMBS[3], DEC_EMBS[0]][i % 3], sigma_t=sigma_t, anchor=0, aux=["W"], force_container="fresh", zerotol=Fraction(n, 10 ** 6) / Fraction(math.sqrt(8 * math.pi * sigma_t))))
+    # unsigned containers whose coordinate DIFFERENCES and squared distances leave the dtype's range, under a bandwidth where the W1 bound is tight
+    for i in range(4 if quick else 16):
+        kind, tmax = [("uint8", 12), ("uint16", 3000)][i % 2]
+        sigma_t = float(tmax * tmax * 16)
+        sess = laws.make_session(rng, 2, 8, tmax, neg=False, with_empty=True)
+        n = max(len(d) for d in sess)
+        specs.append(dict(session=sess, fn="heat", emb=EXACT_EMBS[0], sigma_t=sigma_t, anchor=0, aux=["W"], force_container=kind, zerotol=Fraction(n, 10 ** 6) / Fraction(math.sqrt(8 * math.pi * sigma_t))))
     # argument objects: fresh float arrays per call, or ONE set of float64 arrays / integer-dtype arrays / nested lists (of floats, of ints)
     # shared by all calls of the session; half of the shared sessions are then overwritten in place with doubled coordinates and evaluated
     # again (a value remembered per argument OBJECT instead of per argument VALUE shows there)
     for i, sp in enumerate(specs):
         sp["container"] = laws.pick_container(rng, sp, [None, "array", "int", "list", "intlist", "uint8", "int16", "uint16", "int8", "int32"])
+        if sp.get("force_container") == "fresh":      # (one job per pair, fresh float arrays: the Python double loop over 150 x 150 pairs is slow)
+            sp["container"] = None
+        elif sp.get("force_container") and laws.representable(sp, sp["force_container"]):
+            sp["container"] = sp.pop("force_container")
+        sp.pop("force_container", None)
         sp["edit"] = int(bool(sp["container"]) and i % 2 == 0)
         if sp["container"] in laws.NARROW:
             sp["edit"] = 0      # (doubling in place could leave the dtype\'s range)
